@@ -351,9 +351,10 @@ func (in *Interp) visitInstr(fr *frame, instr ssa.Instruction) bool {
 		*addr = in.zero(deref(instr.Type()))
 
 	case *ssa.MakeSlice:
+		tElt := instr.Type().Underlying().(*types.Slice).Elem()
+		in.symAllocCheck(fr, fr.get(instr.Len).(*Term), fr.get(instr.Cap).(*Term), tElt)
 		ln := in.concreteInt(fr.get(instr.Len), true, "makeslice-len")
 		cp := in.concreteInt(fr.get(instr.Cap), true, "makeslice-cap")
-		tElt := instr.Type().Underlying().(*types.Slice).Elem()
 		in.allocCheck(fr, ln, cp, tElt)
 		a := make([]Value, cp)
 		for i := range a {
@@ -550,6 +551,38 @@ func (in *Interp) strIndex(fr *frame, s Str, idx *Term) Value {
 		res = in.tb.Ite(in.tb.Eq(idx, in.tb.BVConst(64, uint64(i))), byteAt(i), res)
 	}
 	return res
+}
+
+// symAllocCheck handles a symbolic allocation size: the harness obligation cap (vcap) is an
+// obligation; the exploration cap is a recorded cut.
+func (in *Interp) symAllocCheck(fr *frame, ln, cp *Term, elt types.Type) {
+	if ln.IsConst() && cp.IsConst() {
+		return
+	}
+	tb := in.tb
+	sz := in.sizes.Sizeof(elt)
+	if sz < 1 {
+		sz = 1
+	}
+	n := cp
+	if n.S.W < 64 {
+		n = tb.Sext(n, 64)
+	}
+	if in.capOblig > 0 {
+		ok := tb.And(tb.Cmp(OSle, tb.BVConst(64, 0), n), tb.Cmp(OSle, n, tb.BVConst(64, uint64(in.capOblig/sz))))
+		in.obligation(ok, "fault:alloc-cap@"+fr.fname(), true)
+	}
+	lim := in.capExplore
+	if lim <= 0 || lim > in.cfg.AllocCap {
+		lim = in.cfg.AllocCap
+	}
+	okx := tb.And(tb.Cmp(OSle, tb.BVConst(64, 0), n), tb.Cmp(OSle, n, tb.BVConst(64, uint64(lim/sz))))
+	if in.capOblig <= 0 || lim < in.capOblig {
+		if in.dpos >= len(in.decisions) && in.sol.CheckWith(tb.Not(okx)) != Unsat {
+			in.cuts[fmt.Sprintf("allocation sizes above %d bytes not explored at %s", lim, fr.fname())] = true
+		}
+	}
+	in.assume(okx)
 }
 
 func (in *Interp) allocCheck(fr *frame, ln, cp int64, elt types.Type) {
